@@ -359,7 +359,7 @@ def is_literal_ast(t):
     return _re.fullmatch(r"(l[0-9a-f]{2}|C\(|,|\))+", t) is not None
 
 
-def check_atoms(core, chk, cases, imap, found_so_far=False, limit=6):
+def check_atoms(core, chk, cases, imap, amap=None, found_so_far=False, limit=6):
     """the atoms the Lean model of atoms.c extracts (driver `reatoms`) == the atoms the real compiler inserts into the
     automaton (hook H3, h_scan atoms=1), as sets, for every non-literal unchained string"""
     lines, want = [], {}
@@ -380,19 +380,32 @@ def check_atoms(core, chk, cases, imap, found_so_far=False, limit=6):
         if any(e[0] != "0" for e in ents):
             res["chained_skipped"] += 1
             continue
-        want[cid] = (c, sorted(set((e[1] or "-") for e in ents)), sorted(set(e[3] for e in ents)))
+        refs = None
+        acm = [t for t in (amap or {}).get(cid, "").split() if t.startswith("acm=")]
+        if acm and acm[0] != "acm=-":
+            refs = sorted(set("%s:%s" % (x[2], x[3]) for x in (e.split(":") for e in acm[0][4:].split(";")) if x[0] == "0"))
+        want[cid] = (c, sorted(set((e[1] or "-") for e in ents)), sorted(set(e[3] for e in ents)), refs)
         fl = "".join(ch for ch in toks.get("fl", "a") if ch in "awi")
         lines.append("%s re=%s fl=%s" % (cid, toks["re"], fl))
     out, _ = run_robust(core, [core.driver_path(), "reatoms"], lines, chunk_timeout=300, single_timeout=30)
     bad = 0
-    for cid, (c, impl, bts) in want.items():
+    res["refs_compared"] = 0
+    for cid, (c, impl, bts, refs) in want.items():
         ml = out.get(cid)
         if ml is None:
             continue
         t = ml.split()
         model = sorted(t[2].split(",")) if len(t) >= 3 and t[1] == "A" else None
+        mrefs = sorted(t[4].split(",")) if len(t) >= 5 and t[3] == "P" else None
         res["compared"] += 1
-        if model != impl or bts != ["0"]:
+        res["refs_compared"] += int(refs is not None)
+        if refs is not None and mrefs != refs:
+            res["mismatch"] += 1
+            if bad < limit:
+                chk.violation("atomrefs_%s.json" % cid, {"kind": "code positions of the atoms (forward / backward code of the automaton entries) differ from the Lean model",
+                                                        "engine": "re", "harness": "h_re", "case": c, "implementation": refs[:40], "model_spec": (mrefs or [ml])[:40]}, no_input=True)
+            bad += 1
+        elif model != impl or bts != ["0"]:
             res["mismatch"] += 1
             if bad < limit:
                 chk.violation("atoms_%s.json" % cid, {"kind": "atoms inserted into the automaton differ from the Lean model of atoms.c", "engine": "re",
